@@ -736,7 +736,7 @@ def outcome_term(paths, encode: Callable[[Tuple[str, Any]], z3.ExprRef], default
     return term
 
 
-def check(solver_assertions: Sequence[z3.BoolRef], timeout_ms: int = 60000) -> Tuple[str, Optional[z3.ModelRef], float]:
+def check(solver_assertions: Sequence[z3.BoolRef], timeout_ms: int = 60000, name: str = "lemma", cross: bool = True) -> Tuple[str, Optional[z3.ModelRef], float]:
     s = z3.Solver()
     s.set("timeout", timeout_ms)
     for a in solver_assertions:
@@ -744,4 +744,8 @@ def check(solver_assertions: Sequence[z3.BoolRef], timeout_ms: int = 60000) -> T
     t = time.time()
     r = s.check()
     dt = time.time() - t
+    if cross:
+        from vf import crosscheck
+
+        crosscheck.compare(name, solver_assertions, str(r))
     return str(r), (s.model() if str(r) == "sat" else None), dt
